@@ -11,7 +11,7 @@ import numpy as np
 PROP = "C12"
 LEVEL = "exploration"
 VARIANTS = ("omp",)
-CASE_TIMEOUT = 400
+CASE_TIMEOUT = 1200
 RULE = ("kind deriv: zoo crystal x supercell x FC class (symmetric model | arbitrary periodic, not permutation symmetric) x NAC (none|Wang) x full/compact x lang C|Py: "
         "DerivativeOfDynamicalMatrix vs central difference of D(q) in Cartesian q (h=1e-4 and 5e-5), group velocities (analytic and group_velocity_delta_q) vs central "
         "difference of the mode frequency for modes separated by > 1e-3 nu_max, generic and high-symmetry q; "
